@@ -2161,6 +2161,9 @@ func (d *Document) parseParagraph(decoder *xml.Decoder, startElement xml.StartEl
 				if run != nil {
 					paragraph.Runs = append(paragraph.Runs, *run)
 				}
+			case "hyperlink", "smartTag", "ins", "moveTo", "sdt", "sdtContent", "fldSimple", "customXml", "dir", "bdo":
+				// 这些元素只是运行的容器：不跳过，继续读取其中的运行，
+				// 使其文本作为段落的普通运行保留下来（容器自身的属性子元素仍被跳过）
 			default:
 				// 跳过其他元素
 				if err := d.skipElement(decoder, t.Name.Local); err != nil {
